@@ -22,7 +22,7 @@ func HarnessC18Needs(n int, extras bool, narrow bool) {
 	}
 	extraJob, extraKind := -1, 0
 	if extras {
-		extraKind = verifChoose("extra", 5) // 0 none, 1 dangling, 2 duplicate spelling in other case, 3 upper-case reference, 4 the same dangling id from two jobs
+		extraKind = verifChoose("extra", 6) // 0 none, 1 dangling, 2 duplicate spelling in other case, 3 upper-case reference, 4 the same dangling id from two jobs, 5 the job's own id written in upper case
 		if extraKind != 0 {
 			extraJob = verifChoose("extraJob", n)
 		}
@@ -60,7 +60,11 @@ func HarnessC18Needs(n int, extras bool, narrow bool) {
 			add("ZZ") // a second job refers to the same missing id in another letter case
 			dangling[i]++
 		}
-		jobs[i] = &Job{ID: &String{verifJobIDs[i], false, pos}, Pos: pos, Needs: needs}
+		idText := verifJobIDs[i]
+		if i == extraJob && extraKind == 5 {
+			idText = strings.ToUpper(idText) // job ids are case-insensitive: `A:` is the job that `needs: [a]` refers to
+		}
+		jobs[i] = &Job{ID: &String{idText, false, pos}, Pos: pos, Needs: needs}
 	}
 	rule := NewRuleJobNeeds()
 	if narrow {
@@ -96,11 +100,13 @@ func HarnessC18Needs(n int, extras bool, narrow bool) {
 	danglingAt := make([]int, n)
 	var cycleMsg string
 	for _, e := range rule.Errs() {
+		// the two kinds of diagnostic are told apart by structure, not by wording: a cycle report
+		// lists quoted job ids joined by " -> "; a dangling report quotes the id that names no job
 		switch {
-		case strings.Contains(e.Message, "cyclic dependencies"):
+		case strings.Contains(e.Message, "\" -> \""):
 			nCycle++
 			cycleMsg = e.Message
-		case strings.Contains(e.Message, "does not exist"):
+		case strings.Contains(strings.ToLower(e.Message), "\"zz\""): // the only id that names no job
 			nDangling++
 			for i := 0; i < n; i++ {
 				if e.Line == jobs[i].Pos.Line {
@@ -129,8 +135,13 @@ func HarnessC18Needs(n int, extras bool, narrow bool) {
 	verifCheck(nCycle == 1, "more-than-one-cycle-diagnostic")
 	verifCheck(cyclic, "cycle-reported-for-acyclic-graph")
 	// the printed path must be a closed walk along existing edges
-	k := strings.Index(cycleMsg, "detected cycle is ")
-	path := strings.Split(cycleMsg[k+len("detected cycle is "):], " -> ")
+	k := strings.Index(cycleMsg, "\" -> \"")
+	start := strings.LastIndex(cycleMsg[:k], "\"")
+	chain := cycleMsg[start:]
+	if e := strings.LastIndex(chain, "\""); e >= 0 {
+		chain = chain[:e+1] // text after the last quoted id, if any, is not part of the cycle
+	}
+	path := strings.Split(chain, " -> ")
 	verifCheck(len(path) >= 2 && path[0] == path[len(path)-1], "printed-cycle-not-closed")
 	idx := func(q string) int {
 		for i := 0; i < n; i++ {
